@@ -428,6 +428,13 @@ pub fn build_dir() -> PathBuf {
 }
 
 pub fn wall_cap(tier: Tier, quick_s: u64, thorough_s: u64) -> Duration {
+    // development aid: a lower cap for a look at a thorough part (never raises a cap)
+    if let Some(s) = std::env::var("BSMC_WALL_S").ok().and_then(|s| s.parse::<u64>().ok()) {
+        return Duration::from_secs(s.min(match tier {
+            Tier::Quick => quick_s,
+            Tier::Thorough => thorough_s,
+        }));
+    }
     match tier {
         Tier::Quick => Duration::from_secs(quick_s),
         Tier::Thorough => Duration::from_secs(thorough_s),
